@@ -753,4 +753,28 @@ V("c19-dumps-non-ascii", "C19", "break", "R19.5", "json_b64encode emits raw non-
   "util.py", "        text = json.dumps(text, ensure_ascii=True, separators=(\",\", \":\"))", "        text = json.dumps(text, ensure_ascii=False, separators=(\",\", \":\"))")
 V("c08-p2s-always-regenerated", "C08", "break", "R08.5", "the salt is generated even when the caller's header carries p2s",
   "rfc7518/jwe_algs.py", "        if \"p2s\" not in headers:\n            p2s = secrets.token_bytes(16)", "        if \"p2sx\" not in headers:\n            p2s = secrets.token_bytes(16)")
+# ------------------------------------------------------------------------------------------------ rules added after the fifth seed batch
+V("c01-rsa-signature-padded", "C01", "break", "R01.6", "RSA verify left-pads the received signature before handing it to the primitive",
+  "rfc7518/jws_algs.py", "    def verify(self, msg: bytes, sig: bytes, key: RSAKey) -> bool:\n        op_key = key.get_op_key(\"verify\")\n        try:\n            op_key.verify(sig, msg, self.padding, self.hash_alg())",
+  "    def verify(self, msg: bytes, sig: bytes, key: RSAKey) -> bool:\n        op_key = key.get_op_key(\"verify\")\n        sig = sig.rjust((op_key.key_size + 7) // 8, b\"\\x00\")\n        try:\n            op_key.verify(sig, msg, self.padding, self.hash_alg())", count=2)
+V("c02-dir-key-prefix", "C02", "break", "R02.11", "dir takes a prefix of the key before the exact-size check",
+  "rfc7518/jwe_algs.py", "        cek = key.raw_value\n        if len(cek) * 8 != size:", "        cek = key.raw_value[: size // 8]\n        if len(cek) * 8 != size:")
+V("c06-dir-key-prefix", "C06", "break", "R06.4", "dir takes a prefix of the key before the exact-size check",
+  "rfc7518/jwe_algs.py", "        cek = key.raw_value\n        if len(cek) * 8 != size:", "        cek = key.raw_value[: size // 8]\n        if len(cek) * 8 != size:")
+V("c04-flattened-drops-sender-key", "C04", "break", "R04.9", "decrypt_json does not forward sender_key for the flattened serialization",
+  "jwe.py", "        _attach_recipient_keys(flattened_obj.recipients, private_key, sender_key)", "        _attach_recipient_keys(flattened_obj.recipients, private_key)")
+V("c07-oct-import-strips", "C07", "break", "R07.10", "raw secret is stripped of leading whitespace on import",
+  "rfc7518/oct_key.py", "        # security check\n        if value.startswith(POSSIBLE_UNSAFE_KEYS):", "        value = value.lstrip()\n        if value.startswith(POSSIBLE_UNSAFE_KEYS):")
+V("c05-validate-compact-algorithms-wins", "C05", "break", "R05.12", "validate_compact rebuilds the registry when algorithms is passed although a registry was given",
+  "jws.py", "    if registry is None:\n        registry = construct_registry(algorithms)\n\n    headers = obj.headers()", "    if registry is None or algorithms:\n        registry = construct_registry(algorithms)\n\n    headers = obj.headers()")
+V("c12-export-echoes-imported-pem", "C12", "break", "R12.11", "as_bytes returns the imported PEM text unchanged",
+  "rfc7517/models.py", "        return self.binding.as_bytes(self, encoding, private, password)", "        if isinstance(self.original_value, bytes) and encoding is None and password is None and private is None:\n            return self.original_value\n        return self.binding.as_bytes(self, encoding, private, password)")
+V("c13-public-generate-skips-auto-kid", "C13", "break", "R13.8", "ECKey.generate_key returns public keys before the auto_kid step",
+  "rfc7518/ec_key.py", "            pub_key = raw_key.public_key()\n            key = cls(pub_key, pub_key, parameters)", "            pub_key = raw_key.public_key()\n            return cls(pub_key, pub_key, parameters)")
+V("c17-empty-plaintext-not-compressed", "C17", "break", "R17.3", "compress returns an empty input unchanged (not a DEFLATE stream)",
+  "rfc7518/jwe_zips.py", "        data = zlib.compress(s)", "        if not s:\n            return s\n        data = zlib.compress(s)")
+V("c14-algorithm-keys-rebound", "C14", "break", "R14.11", "jwe.register_key_set rebinds KeySet.algorithm_keys",
+  "jwe.py", "    for _alg in JWE_ALG_MODELS:\n        KeySet.algorithm_keys[_alg.name] = _alg.key_types\n", "    KeySet.algorithm_keys = {_alg.name: _alg.key_types for _alg in JWE_ALG_MODELS}\n")
+V("c18-iv-through-segment-dict", "C18", "break", "R18.1", "the content IV is read back through obj.bytes_segments.setdefault (re-used on a second encryption of the object)",
+  "rfc7516/message.py", "    iv = enc.generate_iv()\n", "    iv = obj.bytes_segments.setdefault(\"iv\", enc.generate_iv())\n")
 
